@@ -21,7 +21,7 @@ impl Report {
     }
     fn found(&mut self, input: &str, detail: &str) {
         self.found += 1;
-        if self.found <= 5 {
+        if self.found <= 100 || std::env::var("VERIF_SHOW_ALL").is_ok() {
             println!("FOUND {{\"mode\":\"{}\",\"input\":\"{}\",\"detail\":\"{}\"}}", self.mode, esc(input), esc(detail));
         }
     }
@@ -65,7 +65,7 @@ fn markers(s: &str) -> Vec<usize> {
 pub fn bnd_c08() {
     let max_blocks = if thorough() { 3 } else { 2 };
     let mut rep = Report::new("bnd_c08", &format!("documents of 1..={} blocks from 8 containers (p, ul, ol, blockquote, h2, table cell, nested table cell, dd), 0..=2 links per block, \
-        href modes unique/equal/empty-for-even, optional content-less link in front; widths 30 and 60; plain and rich decorators; footnotes on and off", max_blocks));
+        href modes unique/equal/empty-for-even, optional content-less link in front; widths 30 and 60; plain and rich decorators; footnotes on and off; 2 documents with targets of 19/20 columns at widths 8..=30 (entries hard-wrapped at the width)", max_blocks));
     // a block = (container, number of links)
     let mut block_opts = vec![];
     for c in 0..CONTAINERS.len() { for n in 0..=2usize { block_opts.push((c, n)); } }
@@ -130,13 +130,38 @@ pub fn bnd_c08() {
             }
         }}}
     }}}
+    // footnote entries longer than the width are hard-wrapped at the width: every physical line of an entry but its last is full
+    for (html, hrefs) in [("<p>see <a href=\"http://a.example/x1\">one</a> and <a href=\"http://b.example/yy2\">two</a></p>", vec!["http://a.example/x1", "http://b.example/yy2"]),
+                          ("<table><tr><td><a href=\"http://a.example/x1\">c</a></td><td>d</td></tr></table>", vec!["http://a.example/x1"])] {
+        for width in 8..=30usize {
+            use unicode_width::UnicodeWidthStr;
+            let input = format!("width={} rich=false footnotes=true html={}", width, html);
+            rep.case(&input);
+            let h = html.to_string();
+            let out = match panic::catch_unwind(move || config::plain().link_footnotes(true).string_from_read(h.as_bytes(), width)) { Ok(Ok(s)) => s, Ok(Err(_)) => continue, Err(_) => { rep.found(&input, "panic"); continue; } };
+            let lines: Vec<&str> = out.lines().collect();
+            let start = match lines.iter().position(|l| l.starts_with("[1]:")) { Some(p) => p, None => { rep.found(&input, &format!("no footnote list: {:?}", out)); continue; } };
+            let joined: String = lines[start..].iter().flat_map(|l| l.chars()).filter(|c| *c != ' ').collect();
+            let want: String = hrefs.iter().enumerate().map(|(k, h)| format!("[{}]:{}", k + 1, h)).collect();
+            if joined != want { rep.found(&input, &format!("footnote list {:?}, expected the entries {:?}", &lines[start..], want)); continue; }
+            // line structure: a line that is not the last of its entry is full (up to the blank after the colon)
+            for k in start..lines.len() {
+                let last_of_entry = k + 1 == lines.len() || lines[k + 1].starts_with('[');
+                let lw = UnicodeWidthStr::width(lines[k]);
+                if !last_of_entry && lw != width && !(lw + 1 == width && lines[k].ends_with(':')) { rep.found(&input, &format!("footnote line {:?} is broken before the width; list {:?}", lines[k], &lines[start..])); break; }
+            }
+        }
+    }
     rep.finish();
 }
 
 // ------------------------------------------------------------------------------------------------------------------------------
 // C13: output does not depend on the source formatting of collapsible white space.
 // `\u{2423}` marks a run of collapsible white space in an inline context, `\u{b6}` one between block elements.
-const C13_DOCS: [&str; 13] = [
+const C13_DOCS: [&str; 16] = [
+    "<ol>\u{b6}<li>a1</li>\u{b6}<li>a2</li>\u{b6}<li>a3</li>\u{b6}<li>a4</li>\u{b6}<li>a5\u{2423}x</li>\u{b6}</ol>",
+    "<ul>\u{b6}<li>u1</li>\u{b6}<li>u2<ol>\u{b6}<li>n1</li>\u{b6}<li>n2</li>\u{b6}<li>n3</li>\u{b6}<li>n4</li>\u{b6}</ol></li>\u{b6}</ul>",
+    "<dl>\u{b6}<dt>t1</dt>\u{b6}<dd>d1\u{2423}d2</dd>\u{b6}<dt>t2</dt>\u{b6}<dd>d3</dd>\u{b6}</dl>",
     "<div>alpha\u{2423}beta<p>para</p></div>",
     "<div><p>first</p>\u{b6}gamma\u{2423}<em>delta</em>\u{2423}eps</div>",
     "<blockquote>one\u{2423}two<ul>\u{b6}<li>item</li>\u{b6}</ul>three\u{2423}four</blockquote>",
@@ -170,8 +195,8 @@ fn subst(doc: &str, which: Option<usize>, inline_alt: &str, block_alt: &str) -> 
 
 pub fn bnd_c13() {
     let widths: Vec<usize> = if thorough() { (1..=100).collect() } else { (1..=30).chain([40, 60, 80, 100]).collect() };
-    let mut rep = Report::new("bnd_c13", &format!("13 table-free, pre-free documents; every word wrapped in a span; each collapsible white-space run replaced (one at a time and all at once) by 9 inline / 6 block-level \
-        alternatives (newlines, tabs, runs, adjacent comments, a span around the white space, an empty span); {} widths; plain decorator", widths.len()));
+    let mut rep = Report::new("bnd_c13", &format!("16 table-free, pre-free documents; every word wrapped in a span; each collapsible white-space run replaced (one at a time and all at once) by 9 inline / 6 block-level \
+        alternatives (newlines, tabs, runs, adjacent comments, a span around the white space, an empty span); {} widths; plain decorator; an error on one side only is not compared below 8 columns (finding D21)", widths.len()));
     for doc in C13_DOCS {
         let nmark = doc.chars().filter(|&c| c == '\u{2423}' || c == '\u{b6}').count();
         let base = subst(doc, None, " ", "\n");
@@ -200,8 +225,25 @@ pub fn bnd_c13() {
                 rep.case(&input);
                 let vv = v.clone();
                 let got = match panic::catch_unwind(move || config::plain().string_from_read(vv.as_bytes(), w)) { Ok(Ok(s)) => Some(s), Ok(Err(_)) => None, Err(_) => { rep.found(&input, "panic"); continue; } };
+                // recorded finding D21: below 8 columns a prefixed block may be refused (TooNarrow) or not depending on how its text is split into nodes
+                if w < 8 && got.is_some() != want.is_some() { continue; }
                 if got != want { rep.found(&input, &format!("differs from the rendering of {:?}: {:?} vs {:?}", base, got, want)); }
             }
+        }
+    }
+    rep.finish();
+}
+
+// Finding D21 (C13): the smallest documents that show it.
+pub fn c13_minwrap() {
+    let mut rep = Report::new("c13_minwrap", "2 list items with two short words, with and without a comment between the words, widths 3..=6: same result (text or error)");
+    for (a, b) in [("<ul><li>a5 x</li></ul>", "<ul><li>a5 <!--c-->x</li></ul>"), ("<ol><li>a5 x</li></ol>", "<ol><li>a5 <!--c-->x</li></ol>")] {
+        for w in 3..=6usize {
+            let input = format!("width={} html={} vs {}", w, a, b);
+            rep.case(&input);
+            let ra = config::plain().string_from_read(a.as_bytes(), w).ok();
+            let rb = config::plain().string_from_read(b.as_bytes(), w).ok();
+            if ra != rb { rep.found(&input, &format!("{:?} vs {:?}", ra, rb)); }
         }
     }
     rep.finish();
@@ -370,7 +412,7 @@ pub fn bnd_c09() {
     let inner = [("<ul><li>", "</li></ul>"), ("<h2>", "</h2>"), ("<blockquote>", "</blockquote>"), ("<table><tr><td>", "</td></tr></table>"), ("<ol><li>", "</li></ol>"), ("<p>", "</p>"), ("<div>", "</div>")];
     let inl = ["em", "strong", "code", "s", "a"];
     let mut rep = Report::new("bnd_c09", "outer block (li, blockquote, div, td, ol li, dd) x one or two nested annotating inline elements (em, strong, code, s, a) x inner block \
-        (ul li, h2, blockquote, td, ol li, p, div) with unique tokens before, inside and after the inner block; widths 4/8/13/20/80; rich decorator: every token carries exactly the annotations of its annotating ancestors, outermost first; plus 4 <pre> documents with inline elements and 3 documents with nested CSS colours across table cells, list items and quotes");
+        (ul li, h2, blockquote, td, ol li, p, div) with unique tokens before, inside and after the inner block; widths 4/8/13/20/80; rich decorator: every token carries exactly the annotations of its annotating ancestors, outermost first; plus 4 <pre> documents with inline elements, 3 documents with nested CSS colours across table cells, list items and quotes, and 3 documents whose cell / block padding must carry no inline annotation");
     for (oo, oc) in outer { for i1 in inl { for i2 in ["", "em", "strong", "code"] { for (io, ic) in inner {
         if i2 == i1 { continue; }
         // <outer> pre <i1> [<i2>] aa <inner> bb </inner> cc [</i2>] </i1> post </outer>
@@ -403,6 +445,20 @@ pub fn bnd_c09() {
             }
         }
     }}}}
+    // padding (table cells brought to their column width, pad_block_width) carries no annotation of an inline element
+    for (html, pad) in [("<table><tr><td><em>alpha</em></td><td>b1</td></tr><tr><td>a much longer cell</td><td>c2</td></tr></table>", false),
+                        ("<table><tr><td>x <a href=\"u\">lnk</a></td><td><strong>s1</strong></td></tr><tr><td>wider than that</td><td>also wider</td></tr></table>", false),
+                        ("<p>one <em>two</em></p><p>three <code>four</code></p>", true)] {
+        for width in [30usize, 60] {
+            let input = format!("width={} pad_block_width={} html={}", width, pad, html);
+            rep.case(&input);
+            let h = html.to_string();
+            let lines = match panic::catch_unwind(move || { let c = config::rich(); let c = if pad { c.pad_block_width() } else { c }; c.lines_from_read(h.as_bytes(), width) }) { Ok(Ok(l)) => l, Ok(Err(_)) => continue, Err(_) => { rep.found(&input, "panic"); continue; } };
+            for l in &lines { for ts in l.tagged_strings() {
+                if ts.s.ends_with("  ") && !ts.tag.is_empty() { rep.found(&input, &format!("padding spaces at the end of {:?} carry {:?}", ts.s, ts.tag)); }
+            }}
+        }
+    }
     // CSS colours nest like elements do, across table cells, list items and quotes
     {
         use html2text::render::RichAnnotation as RA;
@@ -519,14 +575,19 @@ fn columns(l: &str) -> Vec<char> {
 pub fn bnd_tables() {
     let (ntab, maxw) = if thorough() { (2500u32, 50usize) } else { (500u32, 30usize) };
     let mut rep = Report::new("bnd_tables", &format!("{} seeded regular tables (1..3 rows plus filler rows, 1..3 columns, colspan 2 tiling the grid, cells empty/short/two words/long/wide characters/two lines/many words, \
-        one level of nested tables, columns may be empty in every row unless an empty multi-column cell spans them), widths 1..={}; plain decorator with borders: \
+        one level of nested tables, columns may be empty in every row unless a multi-column cell with other columns spans them; 4 fixed tables with empty multi-column cells over all-empty columns), widths 1..={}; plain decorator with borders: \
         no panic; lines within the width (C02); the non-space characters of all cells are exactly the non-border characters of the output (C03, C06); \
         side-by-side layout: equal line widths, first and last line are rules, every rule character matches the bars directly above and below it (C05); \
         allowing width overflow does not change a rendering that succeeds (C11)", ntab, maxw));
     let mut r = Lcg(0x9e3779b97f4a7c15 ^ seed());
-    for _ in 0..ntab {
+    // empty multi-column cells over columns that are empty in every row (they have no width and must vanish with their columns)
+    let extras = ["<table><tr><td>a1</td><td></td><td></td></tr><tr><td>b2</td><td colspan=2></td></tr></table>",
+        "<table><thead><tr><th>h1</th><th colspan=2></th></tr></thead><tr><td>a2</td><td></td><td></td></tr></table>",
+        "<table><tr><td>a1</td><td></td><td></td><td>c3</td></tr><tr><td>b2</td><td colspan=2></td><td>d4</td></tr></table>",
+        "<table><tr><td colspan=3></td><td>c1</td></tr><tr><td></td><td></td><td></td><td>d2</td></tr></table>"];
+    for ti in 0..ntab as usize + extras.len() {
         let mut tok = 0;
-        let html = gen_table(&mut r, 0, &mut tok);
+        let html = if ti < extras.len() { extras[ti].to_string() } else { gen_table(&mut r, 0, &mut tok) };
         let want = content_chars(&html);
         for w in 1..=maxw {
             let input = format!("width={} html={}", w, html);
@@ -793,6 +854,7 @@ fn gen_inline(r: &mut Lcg, tok: &mut u32, depth: u32) -> String {
             3 => s.push_str(&format!("<a href=\"{}{}\">lk{}</a> ", if r.below(3) == 0 { "http://x/\u{4e2d}\u{6587}\u{5b57}" } else { "h" }, tok, tok)),
             4 => s.push_str(&format!("x{}<br>", tok)),
             5 => s.push_str(&format!("s{}<sup>up {}</sup> ", tok, tok)),
+            6 if depth == 0 => s.push_str(&format!("m\u{5b57}\u{5b57}abcdefg\u{301}\u{301}h{} ", tok)),
             _ => s.push_str(&format!("w{} ", tok)),
         }
     }
@@ -811,7 +873,9 @@ fn gen_block0(r: &mut Lcg, tok: &mut u32, depth: u32) -> (String, usize) {
         0 | 1 => (format!("<p>{}</p>", gen_inline(r, tok, 0)), 0),
         2 => (format!("<h{}>{}</h{}>", 1 + depth, gen_inline(r, tok, 1), 1 + depth), 2 + depth as usize),
         3 => { *tok += 1; (format!("<pre>p{}  q{}\n\tr{}</pre>", tok, tok, tok), 0) }
-        4 => { let mut s = String::from("<ul>"); let mut p = 0; for _ in 0..1 + r.below(3) { let inl = gen_inline(r, tok, 1); let (nb, np) = if r.below(3) == 0 { gen_block_p(r, tok, depth + 1) } else { (String::new(), 0) }; p = p.max(np); s.push_str(&format!("<li>{}{}</li>", inl, nb)); } (s + "</ul>", 2 + p) }
+        4 => { let mut s = String::from("<ul>"); let mut p = 0; for _ in 0..1 + r.below(3) { let inl = gen_inline(r, tok, 1); let (nb, np) = if r.below(3) == 0 { gen_block_p(r, tok, depth + 1) } else { (String::new(), 0) }; p = p.max(np); s.push_str(&format!("<li>{}{}</li>", inl, nb));
+                // children of <ul> that are not list items are rendered as items too
+                if r.below(5) == 0 { *tok += 1; match r.below(3) { 0 => s.push_str(&format!("stray{} ", tok)), 1 => s.push_str(&format!("<em>se{}</em>", tok)), _ => s.push_str(&format!("<ul><li>sn{}</li></ul>", tok)) } p = p.max(2); } } (s + "</ul>", 2 + p) }
         5 => { let st = r.below(12); let n = 1 + r.below(3); let mut s = format!("<ol start=\"{}\">", st); for _ in 0..n { s.push_str(&format!("<li>{}</li>", gen_inline(r, tok, 1))); } (s + "</ol>", format!("{}. ", st).len().max(format!("{}. ", st + n - 1).len())) }
         6 => { let inl = gen_inline(r, tok, 1); let (nb, np) = gen_block_p(r, tok, depth + 1); (format!("<blockquote>{}{}</blockquote>", inl, nb), 2 + np) }
         7 => { let (a, pa) = gen_block_p(r, tok, depth + 1); let (b2, pb) = gen_block_p(r, tok, depth + 1); (format!("<div>{}{}</div>", a, b2), pa.max(pb)) }
@@ -822,7 +886,7 @@ pub fn bnd_doc() {
     use html2text::render::TrivialDecorator;
     use unicode_width::UnicodeWidthStr;
     let (ndoc, maxw) = if thorough() { (1500u32, 40usize) } else { (300u32, 24usize) };
-    let mut rep = Report::new("bnd_doc", &format!("{} seeded table-free documents (p, h1-h3, pre, ul, ol, blockquote, div, dl nested to depth 3; words, wide characters, over-long words, links with ASCII and wide-character targets, br, nested inline elements, ids on blocks and list items), widths 1..={}: \
+    let mut rep = Report::new("bnd_doc", &format!("{} seeded table-free documents (p, h1-h3, pre, ul, ol, blockquote, div, dl nested to depth 3; words, wide characters, over-long words, links with ASCII and wide-character targets, br, nested inline elements, ids on blocks and list items, stray children of <ul>, words mixing wide characters and combining marks), widths 1..={}; 7 prefixed blocks without text at widths 1..=5 under max_wrap_width none/0/1/3/9: \
         plain: no panic, every line within the width unless an error is returned (C02); with link footnotes at widths >= 2: lines within the width (C02); with allow_width_overflow: always Ok, the same text when the strict rendering is Ok, and no line wider than max(width, deepest prefix chain + 5) (C11); \
         trivial decorator: the non-space characters of the output are exactly those of the document text, in order (C03, C16)", ndoc, maxw));
     let mut r = Lcg(0x2545f4914f6cdd1d ^ seed());
@@ -865,6 +929,89 @@ pub fn bnd_doc() {
             }
         }
     }
+    // prefixed blocks whose content needs no column (the sub-renderer may be 0 columns wide), with and without max_wrap_width
+    for d in ["<blockquote><sup></sup></blockquote>", "<blockquote><span id=\"top\"></span></blockquote>", "<ul><li>\u{200b}</li></ul>", "<ol><li><a name=\"n\"></a></li></ol>",
+              "<dl><dd><em></em></dd></dl>", "<h3><span id=\"h\"></span></h3>", "<blockquote><ul><li><span id=\"q\"></span>\u{200b}</li></ul></blockquote>"] {
+        for w in 1..=5usize { for mww in [None, Some(0usize), Some(1), Some(3), Some(9)] { for ovf in [false, true] {
+            let input = format!("width={} max_wrap_width={:?} allow_width_overflow={} html={}", w, mww, ovf, d);
+            rep.case(&input);
+            let h = d.to_string();
+            let base = { let h = d.to_string(); panic::catch_unwind(move || { let c = config::plain(); let c = if ovf { c.allow_width_overflow() } else { c }; c.string_from_read(h.as_bytes(), w) }) };
+            match panic::catch_unwind(move || { let c = config::plain(); let c = if let Some(m) = mww { c.max_wrap_width(m) } else { c }; let c = if ovf { c.allow_width_overflow() } else { c }; c.string_from_read(h.as_bytes(), w) }) {
+                Err(_) => rep.found(&input, "panic"),
+                Ok(Err(e)) => if ovf { rep.found(&input, &format!("error {:?} although width overflow is allowed", e)); },
+                Ok(Ok(o)) => if let Ok(Ok(b)) = base { if mww.map(|m| m >= w).unwrap_or(true) && b != o { rep.found(&input, &format!("max_wrap_width >= width changed the rendering: {:?} vs {:?}", o, b)); } },
+            }
+        }}}
+    }
+    rep.finish();
+}
+
+// ------------------------------------------------------------------------------------------------------------------------------
+// C03 over the DOM pass (process_dom_node and the table/list constructors): a fixed catalogue of element structures, each with unique
+// tokens k1, k2, … whose visibility follows from HTML alone (everything in the body except script/style/head).
+pub fn c03_elements() {
+    use html2text::render::TrivialDecorator;
+    let docs: Vec<(&str, &str)> = vec![
+        ("<ol>k1<li>k2</li><em>k3</em><li>k4</li><ul><li>k5</li></ul></ol>", "k1k2k3k4k5"),
+        ("<ul>k1<li>k2</li><em>k3</em><li>k4</li><ul><li>k5</li></ul><p>k6</p></ul>", "k1k2k3k4k5k6"),
+        ("<dl>k1<dt>k2</dt><p>k3</p><dd>k4</dd></dl>", "k1k2k3k4"),
+        ("<table><caption>k1</caption><tr><td>k2</td></tr></table>", "k1k2"),
+        ("<table><thead><tr><th>k1</th></tr></thead><tbody><tr><td>k2</td></tr></tbody><tfoot><tr><td>k3</td></tr></tfoot></table>", "k1k2k3"),
+        ("<li>k1</li><li>k2</li>", "k1k2"),
+        ("<dt>k1</dt><dd>k2</dd>", "k1k2"),
+        ("<select><option>k1</option><option>k2</option></select><select><optgroup label=x><option>k3</option></optgroup></select>", "k1k2k3"),
+        ("<details><summary>k1</summary>k2</details>", "k1k2"),
+        ("<button>k1</button><label>k2</label><textarea>k3</textarea>", "k1k2k3"),
+        ("<figure><img alt=\"k1\" src=s><figcaption>k2</figcaption></figure>", "k1k2"),
+        ("<fieldset><legend>k1</legend>k2</fieldset>", "k1k2"),
+        ("<ruby>k1<rt>k2</rt></ruby>", "k1k2"),
+        ("<address>k1</address><center>k2</center><font>k3</font>", "k1k2k3"),
+        ("<svg><text>k1</text></svg>k2<math><mi>k3</mi></math>", "k1k2k3"),
+        ("<h1>k1</h1><h6>k2</h6><h7>k3</h7><hgroup><h2>k4</h2></hgroup>", "k1k2k3k4"),
+        ("<menu><li>k1</li></menu><dir><li>k2</li></dir>", "k1k2"),
+        ("<q>k1</q><abbr title=t>k2</abbr><cite>k3</cite><kbd>k4</kbd><samp>k5</samp><var>k6</var><mark>k7</mark><small>k8</small><sub>k9</sub><u>kA</u><big>kB</big><tt>kC</tt><bdo>kD</bdo><dfn>kE</dfn><time>kF</time><data>kG</data>", "k1k2k3k4k5k6k7k8k9kAkBkCkDkEkFkG"),
+        ("<p>k1<wbr>k2</p>", "k1k2"),
+        ("<table><colgroup><col></colgroup><tr><td>k1</td></tr></table>", "k1"),
+        ("<table><tr><td>k1</td></tr></table><table><tbody><tr><th>k2</th></tr></tbody></table>", "k1k2"),
+        ("<div><table><tr><td><ol><li>k1</li></ol></td><td><dl><dt>k2</dt><dd>k3</dd></dl></td></tr></table></div>", "k1k2k3"),
+        ("<article><header>k1</header><section>k2</section><aside>k3</aside><footer>k4</footer><nav>k5</nav><main>k6</main></article>", "k1k2k3k4k5k6"),
+        ("<p>k1<img alt=\"k2\" src=\"s\">k3</p><img alt=\"k4\" src=\"t\">", "k1k2k3k4"),
+        ("<a>k1</a><a href=\"\">k2</a><a href=\"u\"></a>k3<a name=n>k4</a>", "k1k2k3k4"),
+        ("<pre>k1\nk2</pre><listing>k3</listing>", "k1k2k3"),
+        ("<form>k1<input value=\"v\">k2</form>", "k1k2"),
+        ("<ul><li>k1<ul><li>k2</li></ul></li></ul><ol><li>k3<ol><li>k4</li></ol></li></ol>", "k1k2k3k4"),
+        ("<blockquote>k1<blockquote>k2</blockquote>k3</blockquote>", "k1k2k3"),
+        ("<span>k1<div>k2</div>k3</span><em>k4<p>k5</p>k6</em>", "k1k2k3k4k5k6"),
+        ("<table><tr><td>k1</td></tr><tr></tr><tr><td></td></tr><tr><td>k2</td></tr></table>", "k1k2"),
+        ("<table><tbody><tr><td>k1</td></tr></tbody><tr><td>k2</td></tr></table>", "k1k2"),
+        ("<table><thead><tr><th>k1</th></tr></thead><tr><td>k2</td></tr></table>", "k1k2"),
+        ("<dl><dt>k1</dt><dd>k2<dl><dt>k3</dt><dd>k4</dd></dl></dd></dl>", "k1k2k3k4"),
+        ("<ol><li>k1</li>\n<!-- c --><li>k2</li></ol>", "k1k2"),
+        ("<ol start=3 reversed><li>k1</li><li value=9>k2</li></ol>", "k1k2"),
+        ("<sup>k1</sup><sub>k2</sub><s>k3</s><del>k4</del><ins>k5</ins><strike>k6</strike><b>k7</b><i>k8</i><code>k9</code>", "k1k2k3k4k5k6k7k8k9"),
+        ("<table><tr><td>k1<table><tr><td>k2</td></tr></table>k3</td></tr></table>", "k1k2k3"),
+        ("<div>k1<script>no1</script><style>no2</style>k2</div>k3", "k1k2k3"),
+        ("<table><tr><td>k1</td><th>k2</th></tr><tr><td colspan=2>k3</td></tr><tr><td rowspan=2>k4</td><td>k5</td></tr><tr><td>k6</td></tr></table>", "k1k2k3k4k5k6"),
+        ("<ul><li>k1</li></ul>k2<ol><li>k3</li></ol>k4<dl><dd>k5</dd></dl>k6", "k1k2k3k4k5k6"),
+        ("<p>k1<br>k2<hr>k3</p>", "k1k2k3"),
+        ("<div><span id=a></span><p id=b></p>k1<ul><li></li><li>k2</li></ul></div>", "k1k2"),
+    ];
+    let mut rep = Report::new("c03_elements", &format!("{} element structures (lists with stray children, definition lists, table sections and captions, form controls,         phrasing elements, foreign elements, nested tables, misnested block/inline) x widths 3, 10, 40, trivial decorator with width overflow allowed: the non-space characters of the output         are exactly the visible tokens of the document, in order", docs.len()));
+    for (d, want) in &docs { for w in [3usize, 10, 40] {
+        let input = format!("width={} html={}", w, d.replace('\n', "\\n"));
+        rep.case(&input);
+        let h = d.to_string();
+        match panic::catch_unwind(move || config::with_decorator(TrivialDecorator::new()).allow_width_overflow().unicode_strikeout(false).string_from_read(h.as_bytes(), w)) {
+            Err(_) => rep.found(&input, "panic"),
+            Ok(Err(e)) => rep.found(&input, &format!("error {:?} although width overflow is allowed", e)),
+            Ok(Ok(o)) => {
+                // table borders are not document text
+                let got: String = o.chars().filter(|c| !c.is_whitespace() && *c != '/' && !"\u{2500}\u{2502}\u{250c}\u{2510}\u{2514}\u{2518}\u{251c}\u{2524}\u{252c}\u{2534}\u{253c}".contains(*c)).collect();
+                if got != *want { rep.found(&input, &format!("output characters {:?}, visible document characters {:?}", got, want)); }
+            }
+        }
+    }}
     rep.finish();
 }
 
@@ -896,7 +1043,7 @@ fn greedy(words: &[String], w: usize) -> Vec<String> {
 }
 pub fn bnd_c04() {
     let (npar, maxw) = if thorough() { (1200u32, 40usize) } else { (250u32, 30usize) };
-    let mut rep = Report::new("bnd_c04", &format!("{} seeded paragraphs of 1..12 words (ASCII words of 1..9 letters, wide-character words, words with a combining mark), split arbitrarily across text nodes and \
+    let mut rep = Report::new("bnd_c04", &format!("{} seeded paragraphs of 1..12 words (ASCII words of 1..9 letters, wide-character words, words with a combining mark, words with as many wide characters as combining marks), split arbitrarily across text nodes and \
         em/strong/code/span elements, white-space runs of spaces/newlines/tabs (sometimes alone inside an inline element); widths 1..={}; undecorated plain rendering: the lines equal those of a reference greedy wrapper, \
         an error is returned exactly when a wide character meets width 1; also under max_wrap_width m < width (effective width m)", npar, maxw));
     let mut r = Lcg(0x6a09e667f3bcc908 ^ seed());
@@ -908,6 +1055,7 @@ pub fn bnd_c04() {
             let kind = r.below(8);
             let mut s = String::new();
             for k in 0..len {
+                if kind == 2 && len >= 4 { if k < len / 2 { s.push('\u{5b57}'); } else { s.push((b'a' + r.below(26) as u8) as char); s.push('\u{301}'); } continue; }
                 if kind == 0 { s.push(['\u{4e2d}', '\u{6587}', '\u{5b57}'][r.below(3) as usize]); }
                 else { s.push((b'a' + r.below(26) as u8) as char); if kind == 1 && k == 0 { s.push('\u{301}'); } }
             }
@@ -973,7 +1121,7 @@ pub fn bnd_c12() {
     use unicode_width::UnicodeWidthStr;
     let nblk = if thorough() { 1500u32 } else { 300u32 };
     let mut rep = Report::new("bnd_c12", &format!("{} seeded <pre> blocks of 1..6 source lines (words, runs of 1..5 spaces, tabs, leading and trailing spaces, empty interior lines, wide characters; line breaks \
-        written as newline or <br>; optionally inside a list item or quote), widths 1..=40: when every expanded source line fits the available width the block is reproduced line for line \
+        written as newline or <br>; sometimes the first word after leading white space inside a <span>; optionally inside a list item or quote), widths 1..=40: when every expanded source line fits the available width the block is reproduced line for line \
         (tabs to 8-column stops, interior blank lines kept, trailing spaces removed); otherwise every output line is within the width and the non-space characters are preserved in order", nblk));
     let mut r = Lcg(0xbb67ae8584caa73b ^ seed());
     for _ in 0..nblk {
@@ -995,7 +1143,17 @@ pub fn bnd_c12() {
         // every line break is written as a newline or as <br>, independently
         let br_mode = r.below(3);
         let mut body = String::new();
-        for (k, l) in src.iter().enumerate() { if k > 0 { body.push_str(if br_mode == 0 || (br_mode == 1 && r.below(2) == 0) { "\n" } else { "<br>" }); } body.push_str(l); }
+        // sometimes the first word after leading white space sits in a <span> (the white space is then a text node of its own)
+        let span_mode = r.below(3) == 0;
+        for (k, l) in src.iter().enumerate() {
+            if k > 0 { body.push_str(if br_mode == 0 || (br_mode == 1 && r.below(2) == 0) { "\n" } else { "<br>" }); }
+            let lead = l.len() - l.trim_start().len();
+            if span_mode && lead > 0 && lead < l.len() {
+                let rest = &l[lead..];
+                let wend = rest.find(|c: char| c == ' ' || c == '\t').unwrap_or(rest.len());
+                body.push_str(&l[..lead]); body.push_str("<span>"); body.push_str(&rest[..wend]); body.push_str("</span>"); body.push_str(&rest[wend..]);
+            } else { body.push_str(l); }
+        }
         let (pre, post, indent) = match r.below(4) { 0 => ("<ul><li>", "</li></ul>", 2usize), 1 => ("<blockquote>", "</blockquote>", 2), _ => ("", "", 0) };
         let html = format!("{}<pre>{}</pre>{}", pre, body, post);
         let expanded: Vec<String> = src.iter().map(|l| expand_tabs(l)).collect();
@@ -1034,7 +1192,7 @@ pub fn bnd_c15() {
     for i in 0..ndoc {
         let mut tok = 0;
         let mut html = String::new();
-        if i % 2 == 0 { for _ in 0..1 + r.below(2) { html.push_str(&gen_block(&mut r, &mut tok, 0)); } html.push_str("<p>a <s>struck text</s> b <s>two  spaces\n   and a newline</s> c</p>"); }
+        if i % 2 == 0 { for _ in 0..1 + r.below(2) { html.push_str(&gen_block(&mut r, &mut tok, 0)); } html.push_str("<p>a <s>struck text</s> b <s>two  spaces\n   and a newline</s> c <s>nl\nsep\ttab</s></p><pre>p <s>l1\nl2\tl3</s></pre>"); }
         else {
             html.push_str("<table>");
             for _ in 0..1 + r.below(3) { html.push_str("<tr>"); for _ in 0..2 { tok += 1; if r.below(2) == 0 { html.push_str(&format!("<td>c{} <a href=\"http://h/{}\">link{}</a> t</td>", tok, tok, tok)); } else if r.below(3) == 0 { html.push_str(&format!("<td>cell{} with a much longer run of words than any width used here so that estimates exceed the width</td>", tok)); } else { html.push_str(&format!("<td>cell{} words here</td>", tok)); } } html.push_str("</tr>"); }
